@@ -4,8 +4,8 @@ from trkgen import *
 ID = "C01"
 THEOREM_MODULE = "SimVerif.Props.C01"
 NONTRIVIAL_FLAGS = {"multi-det", "competition", "continuation", "multi-scene-batch", "multi-scene-store", "expired-uncollected", "gc-runs"}
-KINDS = ["sort", "bsort"]
-RULE = ("random multi-scene histories for every tracker kind (Sort, BatchSort; VisualSort kinds when registered), both metrics, shards 1..4, history 1..5, idle 0..3: 0..n detections per call "
+KINDS = ["sort", "bsort", "visual", "bvisual"]
+RULE = ("random multi-scene histories for every tracker kind (Sort, BatchSort, VisualSort, BatchVisualSort), both metrics, shards 1..4, history 1..5, idle 0..3: 0..n detections per call "
         "(moving objects, missed detections, sudden jumps, near-duplicate detections of one object, clutter, rotated and axis-aligned boxes, confidences below and above the minimum, custom ids); "
         "every record is compared with the model (id, epoch, scene, length, custom id, voting type, token of the echoed box; the executor additionally compares the echoed box bit-for-bit with the submitted one) and the live/wasted stores are dumped after every call; "
         "non-trivial = a call with >=2 detections, with two detections gated for the same track, with a continuation, a multi-scene batch, tracks of several scenes stored, an expired-but-uncollected track present, or a periodic collection; distinct = distinct request line")
